@@ -18,6 +18,10 @@
 //   rload <0|1>
 //   r <keyhex> <valuehex>              every key id of the reverse db with its value
 //   rl <bad>                           ReverseDb::Lookup(key) != value for <bad> keys
+//   rs <loaded> <bad> <absent-found>   ReverseLookupDictionary::ReverseLookup / LookupStems (keys ending in \x1fstem) disagree for <bad>
+//                                      keys; <absent-found> = texts that are no key and still have a reverse entry
+//   ds <present> <rule-based> <rules> <namehex>   ReverseLookupDictionary::GetDictSettings (stored when the encoder has rules)
+//   pack <k> <name>                    then load/size/meta/.../e/walk/qp lines of that pack's table
 //   end <name>
 #include "hcommon.h"
 #include <algorithm>
@@ -32,6 +36,7 @@
 #include <rime/dict/table.h>
 #include <rime/dict/reverse_lookup_dictionary.h>
 #include <rime/dict/string_table.h>
+#include <rime/dict/dict_settings.h>
 
 using namespace vh;
 using namespace rime;
@@ -166,30 +171,8 @@ static void decomp(Table* t, TableQuery* q, int nsyl, Bag* out, size_t* n) {
   }
 }
 
-// `+<name>`: the dictionary is compiled again over whatever an earlier compilation left in build/ (nothing removed first):
-// what a deployment after the source was edited does
-static void one(const std::string& dir, const std::string& arg) {
-  const bool keep = !arg.empty() && arg[0] == '+';
-  const std::string name = keep ? arg.substr(1) : arg;
-  printf("case %s\n", name.c_str());
-  path staging = path(dir) / "build";
-  std::filesystem::create_directories(staging);
-  path tpath = staging / (name + ".table.bin"), ppath = staging / (name + ".prism.bin"), rpath = staging / (name + ".reverse.bin");
-  bool ok;
-  {
-    Dictionary dict(name, {}, {New<Table>(tpath)}, New<Prism>(ppath));
-    if (!keep) dict.Remove();
-    DictCompiler dc(&dict);
-    ok = dc.Compile(path());
-  }
-  printf("compile %d\n", ok ? 1 : 0);
-#if !defined(__SANITIZE_ADDRESS__)
-  printf("tmaps");
-  for (size_t m : g_tmaps) printf(" %zu", m);
-  printf("\n");
-  g_tmaps.clear();
-#endif
-  fflush(stdout);
+// walks one loaded table file whole and prints it (load/size/meta/sizes/layout/syl/e/corrupt/walk/qp lines)
+static void dump_table(const path& tpath) {
   {
     Table t(tpath);
     bool ld = t.Exists() && t.Load();
@@ -259,6 +242,46 @@ static void one(const std::string& dir, const std::string& arg) {
       }
     }
   }
+}
+
+static std::vector<std::string> split_commas(const std::string& s) {
+  std::vector<std::string> out; size_t i = 0;
+  while (i <= s.size()) { size_t j = s.find(',', i); if (j == std::string::npos) j = s.size(); if (j > i) out.push_back(s.substr(i, j - i)); i = j + 1; }
+  return out;
+}
+
+// `+<name>`: the dictionary is compiled again over whatever an earlier compilation left in build/ (nothing removed first):
+// what a deployment after the source was edited does.  `<name>@<pack>,<pack>`: the dictionary has these packs (each compiled to
+// its own table over the primary table's syllabary); their tables are dumped after the primary one behind a `pack <k> <name>` line.
+static void one(const std::string& dir, const std::string& arg0) {
+  const bool keep = !arg0.empty() && arg0[0] == '+';
+  std::string arg = keep ? arg0.substr(1) : arg0;
+  std::vector<std::string> packs;
+  size_t at = arg.find('@');
+  if (at != std::string::npos) { packs = split_commas(arg.substr(at + 1)); arg = arg.substr(0, at); }
+  const std::string name = arg;
+  printf("case %s\n", name.c_str());
+  path staging = path(dir) / "build";
+  std::filesystem::create_directories(staging);
+  path tpath = staging / (name + ".table.bin"), ppath = staging / (name + ".prism.bin"), rpath = staging / (name + ".reverse.bin");
+  bool ok;
+  {
+    vector<of<Table>> tables = {New<Table>(tpath)};
+    for (auto& p : packs) tables.push_back(New<Table>(staging / (p + ".table.bin")));
+    Dictionary dict(name, packs, tables, New<Prism>(ppath));
+    if (!keep) dict.Remove();
+    DictCompiler dc(&dict);
+    ok = dc.Compile(path());
+  }
+  printf("compile %d\n", ok ? 1 : 0);
+#if !defined(__SANITIZE_ADDRESS__)
+  printf("tmaps");
+  for (size_t m : g_tmaps) printf(" %zu", m);
+  printf("\n");
+  g_tmaps.clear();
+#endif
+  fflush(stdout);
+  dump_table(tpath);
   {
     ReverseDb r(rpath);
     bool ld = r.Exists() && r.Load();
@@ -270,18 +293,54 @@ static void one(const std::string& dir, const std::string& arg) {
       size_t n = md->index.size;
       if (n && (!idx || !img.in(idx, 4 * n) || !img.in(md->key_trie.get(), md->key_trie_size) || !img.in(md->value_trie.get(), md->value_trie_size)))
         printf("corrupt reverse\n");
-      else if (n) {
-        StringTable keys(md->key_trie.get(), md->key_trie_size), vals(md->value_trie.get(), md->value_trie_size);
-        size_t bad = 0;
-        for (size_t i = 0; i < n; ++i) {
-          std::string k = keys.GetString((StringId)i), v = vals.GetString(idx[i]);
-          printf("r %s %s\n", hex(k).c_str(), hex(v).c_str());
-          std::string got;
-          if (!r.Lookup(k, &got) || got != v) ++bad;
+      else {
+        // the same file through the class the translators use (ReverseLookup / LookupStems / GetDictSettings)
+        ReverseLookupDictionary rd(New<ReverseDb>(rpath));
+        bool rdl = rd.Load();
+        static const std::string kStem = "\x1fstem";
+        size_t bad = 0, bad2 = 0, babs = 0;
+        if (n) {
+          StringTable keys(md->key_trie.get(), md->key_trie_size), vals(md->value_trie.get(), md->value_trie_size);
+          std::set<std::string> all;
+          for (size_t i = 0; i < n; ++i) all.insert(keys.GetString((StringId)i));
+          for (size_t i = 0; i < n; ++i) {
+            std::string k = keys.GetString((StringId)i), v = vals.GetString(idx[i]);
+            printf("r %s %s\n", hex(k).c_str(), hex(v).c_str());
+            std::string got;
+            if (!r.Lookup(k, &got) || got != v) ++bad;
+            if (rdl) {
+              std::string g2;
+              bool is_stem = k.size() > kStem.size() && k.compare(k.size() - kStem.size(), kStem.size(), kStem) == 0;
+              bool okk = is_stem ? rd.LookupStems(k.substr(0, k.size() - kStem.size()), &g2) : rd.ReverseLookup(k, &g2);
+              if (!okk || g2 != v) ++bad2;
+              // a text that is no key (the key plus a byte, the key minus its last byte) has no reverse entry
+              for (std::string a : {k + "!", k.substr(0, k.size() - 1)}) {
+                if (a.empty() || all.count(a)) continue;
+                std::string g3;
+                if (rd.ReverseLookup(a, &g3)) ++babs;
+              }
+            }
+          }
+        } else {
+          std::string g3;
+          if (rdl && (rd.ReverseLookup("a", &g3) || rd.LookupStems("a", &g3))) ++babs;
         }
         printf("rl %zu\n", bad);
+        printf("rs %d %zu %zu\n", rdl ? 1 : 0, bad2, babs);
+        if (rdl) {
+          auto ds = rd.GetDictSettings();
+          if (!ds) printf("ds 0 0 0 -\n");
+          else {
+            auto rules = ds->GetList("encoder/rules");
+            printf("ds 1 %d %zu %s\n", ds->use_rule_based_encoder() ? 1 : 0, rules ? rules->size() : (size_t)0, hex(ds->dict_name()).c_str());
+          }
+        }
       }
     }
+  }
+  for (size_t k = 0; k < packs.size(); ++k) {
+    printf("pack %zu %s\n", k, packs[k].c_str());
+    dump_table(staging / (packs[k] + ".table.bin"));
   }
   printf("end %s\n", name.c_str());
   fflush(stdout);
